@@ -8,7 +8,7 @@ from hypothesis import given, strategies as st
 
 from vf import common
 from vf.common import CEIL, Violation
-from vf.world import CLASS_OF, make_sketch, snapshot, snap_diff, snap_equal, sut
+from vf.world import CLASS_OF, _rotate_threads, make_sketch, snapshot, snap_diff, snap_equal, sut
 
 import sketchnu.countmin as cmmod
 from sketchnu.countmin import CountMin
@@ -60,8 +60,11 @@ def check_pair(ca, cb, variant=0):
             shutil.rmtree(d, ignore_errors=True)
     sa, sb = snapshot(A, ca["kind"]), snapshot(B, cb["kind"])
     want_refusal = differs(ca, cb)
+    # the enabled numba thread count and numpy's error state are user configuration: neither may change the verdict
+    _rotate_threads(len(repr(ca)) + 3 * len(repr(cb)) + variant)
     try:
-        A.merge(B)
+        with np.errstate(all="raise" if (len(repr(ca)) + variant) % 2 else "warn"):
+            A.merge(B)
         raised = None
     except Exception as e:  # noqa
         raised = e
